@@ -13,6 +13,7 @@ ZeroTol   == 1     \* 1e-6 units: "correlation index is 0" (the code thresholds 
 GenTol    == 10    \* 1e-6 units per matrix entry: products of <= 3 logged cosines, each rounded to 1e-6
 CorrTol   == 2     \* 1e-6 units per row/column maximum of a logged cosine matrix
 MetricTol == 2     \* 1e-6 units on a rational error metric
+MetricTolF32 == 100  \* float32 data (offset 2^10, spread <= 3): mean rounded to 2^-14, ~1e-6 relative per operation
 LevTol    == 2     \* 1e-8 units per leverage score (sum: rows + LevTol)
 SqTol(v)  == 2 * (AbsI(v) \div 1000000) + 4     \* on v^2 when v carries half a unit of rounding error
 
@@ -67,14 +68,14 @@ ExactCorrV(c, corr) ==
 \* floating point and w' = w with the inverse magnitudes (the tensor keeps its size in the weights).
 \* Integer tensors come back as integers (compared here); for a magnified B' the harness logs whether the returned
 \* factors / weights are bit-identical to B'[:, perm] / w'[perm].
-ExactPermuteV(c, r) ==
+ExactPermuteV2(c, r, meas) ==
     IF r.raised THEN "PermuteRaised"
     ELSE IF r.target \notin {"A", "B"} \/ r.ref \notin {"A", "B"} THEN "PermuteTarget"
     ELSE IF ~PermOK(r.perm, c.R) THEN "PermutePerm"
     ELSE LET X  == IF r.target = "B" THEN c.B ELSE c.A
              Rf == IF r.ref = "B" THEN c.B ELSE c.A
              wX == IF r.target = "B" THEN c.w ELSE [j \in 1..c.R |-> 1]
-             measured == Magnified(c.s) /\ r.target = "B"
+             measured == meas /\ r.target = "B"
              p1 == Plus1(r.perm) IN
          IF ~measured /\ ~r.exact THEN "PermuteExact"
          ELSE With(CongL(Rf, X, TRUE), LAMBDA W :
@@ -87,6 +88,57 @@ ExactPermuteV(c, r) ==
            ELSE IF r.ref = "B" /\ r.target = "A" /\ c.a = c.b /\ p1 # c.p THEN "PermuteAligned"
            ELSE IF r.ref = r.target /\ p1 # IdPerm(c.R) THEN "PermuteAligned"
            ELSE "ok")
+
+ExactPermuteV(c, r) == ExactPermuteV2(c, r, Magnified(c.s))
+
+\* ---- options and argument forms (integer patterns 0..3 only)
+\* correlation_index(tol=...): "Precision threshold below which to call the CorrIndex score 0" -- applied to every
+\* per-matrix score: with a tol the score of equivalent sets is EXACTLY 0 (also for float32 factors, whose raw score
+\* is ~1e-8), scores above tol are unchanged.  r.tol: 0 default (5e-16), 1 = 1e-5, 2 = 1e-3;  r.dt: dtype of the
+\* factor sets, "i64/f64h" = integer first set, second set halved (half-integer floats): same cosines.
+TolQ(t) == CASE t = 1 -> 10 [] t = 2 -> 1000 [] OTHER -> 0                 \* units of 1e-6
+CorrOptCombos == ({1, 2} \X {"f32", "f64"} \X {FALSE}) \cup ({0} \X {"f32"} \X {FALSE}) \cup ({0} \X {"i64/f64h"} \X BOOLEAN)
+ValTol(dt) == IF dt = "f32" THEN 5 ELSE ExactTol
+CorrOptV(c, r, nums, stackedCover, bs) ==      \* bs: the float64 / default-tol stacked score of the same sets
+    LET den == 2 * c.R * L
+        tq  == TolQ(r.tol)
+        kept == [m \in 1..c.M |-> IF nums[m] * One < tq * den THEN 0 ELSE nums[m]]      \* per-matrix threshold
+        want == CASE r.method = "max_score" -> RatQ(MaxOfSet(SeqRange(kept)), den, 6)
+                  [] r.method = "min_score" -> RatQ(MinOfSet(SeqRange(kept)), den, 6)
+                  [] r.method = "avg_score" -> RatQ(SumSeq(kept), den * c.M, 6)
+                  [] OTHER -> 0
+        wantZero == CASE r.method = "max_score" -> \A m \in 1..c.M : kept[m] = 0
+                      [] r.method = "min_score" -> \E m \in 1..c.M : kept[m] = 0
+                      [] r.method = "avg_score" -> \A m \in 1..c.M : kept[m] = 0
+                      [] OTHER -> stackedCover IN
+    IF r.raised THEN "CorrOptRaised"
+    ELSE IF ~IsFin(r.val) THEN "CorrFinite"
+    ELSE IF r.val < 0 \/ r.val > One + ExactTol THEN "CorrRange"
+    ELSE IF r.tol # 0 /\ wantZero /\ ~r.zero THEN "CorrTolNotExactlyZero"
+    ELSE IF r.method = "stacked" THEN
+           (IF stackedCover THEN (IF r.val <= ZeroTol THEN "ok" ELSE "CorrZeroIffStacked")
+            ELSE IF bs <= tq + 1 THEN "ok"                       \* at the threshold: either outcome
+            ELSE IF r.zero THEN "CorrTolZeroedTooMuch"
+            ELSE IF AbsI(r.val - bs) > ValTol(r.dt) THEN "CorrOptValue" ELSE "ok")
+    ELSE IF ~wantZero /\ r.zero THEN "CorrTolZeroedTooMuch"
+    ELSE IF AbsI(r.val - want) > ValTol(r.dt) THEN "CorrOptValue"
+    ELSE "ok"
+\* mixed dtypes between the two arguments: the metric is a function of the VALUES
+CongMixes == {"i64/f64h", "f32/f64"} \X BOOLEAN
+PermuteMixes == {<<"A", "B">>, <<"B", "A">>}
+OptsV(c, o, bs) ==
+    IF c.s > 3 THEN (IF o.cong = <<>> /\ o.corr = <<>> /\ o.permute = <<>> THEN "ok" ELSE "OptForms")
+    ELSE IF {<<o.corr[k].tol, o.corr[k].dt, o.corr[k].swap, o.corr[k].method>> : k \in DOMAIN o.corr}
+              # {<<t[1], t[2], t[3], m>> : t \in CorrOptCombos, m \in Methods} THEN "OptForms"
+    ELSE IF {<<o.cong[k].mix, o.cong[k].swap>> : k \in DOMAIN o.cong} # CongMixes THEN "OptForms"
+    ELSE IF {<<o.permute[k].ref, o.permute[k].target>> : k \in DOMAIN o.permute} # PermuteMixes THEN "OptForms"
+    ELSE With([m \in 1..c.M |-> CorrNum(CosMat(c.A[m], c.B[m], TRUE), L)], LAMBDA nums :
+         With(CoverBoth(StackRows(c.A, c.M), StackRows(c.B, c.M)), LAMBDA sc :
+         With(FirstBad([k \in DOMAIN o.corr |-> CorrOptV(c, o.corr[k], nums, sc, bs)]), LAMBDA v1 :
+           IF v1 # "ok" THEN v1
+           ELSE With(FirstBad([k \in DOMAIN o.cong |-> ExactCongV(c, o.cong[k])]), LAMBDA v2 :
+                IF v2 # "ok" THEN v2
+                ELSE FirstBad([k \in DOMAIN o.permute |-> ExactPermuteV2(c, o.permute[k], TRUE)])))))
 
 ExactV(e) ==
     LET c == e.cfg IN
@@ -102,7 +154,8 @@ ExactV(e) ==
               IF v2 # "ok" THEN v2
               ELSE With(ExactCorrV(c, e.corr_swap), LAMBDA v3 :      \* the index is symmetric in its arguments
                    IF v3 # "ok" THEN v3
-                   ELSE FirstBad([k \in DOMAIN e.permute |-> ExactPermuteV(c, e.permute[k])]))))
+                   ELSE With(FirstBad([k \in DOMAIN e.permute |-> ExactPermuteV(c, e.permute[k])]), LAMBDA v4 :
+                        IF v4 # "ok" THEN v4 ELSE OptsV(c, e.opts, e.corr["stacked"])))))
 
 -----------------------------------------------------------------------------
 (* exact zeros: every call either raises the documented ValueError (where the spec says the cosine is undefined)   *)
@@ -200,16 +253,16 @@ GenericV(e) ==
 
 -----------------------------------------------------------------------------
 (* error metrics *)
-MetricEntryV(op, x, y, v) ==
+MetricEntryV(op, x, y, v, f32) ==
     With(MetricRat(op, x, y), LAMBDA rat :
       IF rat[2] = 0 THEN "ok"                     \* 0/0: undefined, any outcome is accepted
       ELSE IF ~IsFin(v) THEN "Finite"
       ELSE IF MetricSquared(op) THEN
              With(RatQ(rat[1], rat[2], 6), LAMBDA want :
-               IF AbsI(SqQ6(v) - want) > SqTol(v) THEN "Value"
+               IF AbsI(SqQ6(v) - want) > SqTol(v) + (IF f32 THEN 2 * MetricTolF32 ELSE 0) THEN "Value"
                ELSE IF want > 100 /\ SgnI(v) # MetricSign(op, x, y) THEN "Sign"
                ELSE "ok")
-      ELSE IF AbsI(v - RatQ(rat[1], rat[2], 6)) > MetricTol THEN "Value"
+      ELSE IF AbsI(v - RatQ(rat[1], rat[2], 6)) > (IF f32 THEN MetricTolF32 ELSE MetricTol) THEN "Value"
       ELSE "ok")
 
 MetricV(e) ==
@@ -225,7 +278,7 @@ MetricV(e) ==
          ELSE IF DOMAIN e.out.vals # 1..Size(os) THEN "Shape"
          ELSE LET X == [shape |-> c.shape, data |-> e.x]
                   Y == [shape |-> c.shape, data |-> e.y] IN
-              FirstBad([k \in 1..Size(os) |-> MetricEntryV(c.op, SliceSeq(X, ax, k), SliceSeq(Y, ax, k), e.out.vals[k])])
+              FirstBad([k \in 1..Size(os) |-> MetricEntryV(c.op, SliceSeq(X, ax, k), SliceSeq(Y, ax, k), e.out.vals[k], c.dt = "f32")])
 
 -----------------------------------------------------------------------------
 (* leverage scores *)
